@@ -3,7 +3,13 @@
 For every un-keyed sorted()/.sort()/min()/max() in scope the leading element class is inferred from annotations; for each
 repository class found that defines __lt__, the decision table of __lt__ (bool_returns mode) is evaluated on every abstract
 pair of operands and on the swapped pair: for operands __eq__ can distinguish exactly one of a<b, b<a must hold, for
-operands it cannot distinguish neither."""
+operands it cannot distinguish neither.
+
+Family note: __lt__ is never evaluated on sample keys.  The table comes from sa.tables (path enumeration, canonical atoms);
+its atoms are split into unary predicates of one operand (`@.f is None`), and ordering atoms `P(self) < P(other)` with one
+projection P on both sides; the *worlds* are all truth assignments of the unary predicates for the two operands times the
+trichotomy lt/eq/gt of the projection pair (pruned when the projection contains a field on which the unary predicates
+already differ); the rows that fire in a world and in the world with the operands exchanged are compared."""
 from __future__ import annotations
 
 import ast
@@ -272,9 +278,9 @@ def check_lt(ctx: RuleCtx, sc: SiteScanner, mod: Module, cls: ast.ClassDef, user
                         msg = f'for operands that __eq__ cannot distinguish ({case}) `a < b` is True'
                 else:
                     free = sorted(E - keq)
-                    if c1 == c2 or True:
-                        msg = (f'the result for ({case}) is the constant {c1} although the operands can still differ in {free} '
-                               f'(fields read by __eq__): two distinct keys are mutually not-less, sorted() is not a sanitiser')
+                    # the row cannot tell equal operands (must be False/False) from different ones (exactly one True)
+                    msg = (f'the result for ({case}) is the constant {c1} although the operands can still differ in {free} '
+                           f'(fields read by __eq__): two distinct keys are mutually not-less, sorted() is not a sanitiser')
                 if msg:
                     bad.setdefault(repr(f1[0]), (f1[0], msg))
     for key, (row, msg) in bad.items():
